@@ -122,6 +122,7 @@ def run(ctx):
     ctx.guard('tables', tables, ctx, ss)
     ctx.guard('ageing_and_disease_pars', ageing_and_disease_pars, ctx, ss)
     ctx.guard('module_own_step', module_own_step, ctx, ss)
+    ctx.guard('sexual_network_beta', sexual_network_beta, ctx, ss)
     ctx.guard('routine_delivery', routine_delivery, ctx, ss)
     ctx.guard('mixing_pools', mixing_pools, ctx, ss)
 
@@ -208,6 +209,27 @@ def module_own_step(ctx, ss):
         br = sim.demographics[1].pars.birth_rate
         if getattr(br, 'values', None) is not None and abs(float(br.values) - 30 * float(sim.demographics[1].t.dt)) > 1e-9:
             ctx.violation(f'births.birth_rate (30 per year) with dt={float(sim.demographics[1].t.dt)} in a sim with dt={sim_dt}: per-step value {float(br.values)}, rate x dt = {30 * float(sim.demographics[1].t.dt)}', dict(W, module='births', par='birth_rate'))
+
+
+def sexual_network_beta(ctx, ss):
+    """Per-step transmission probability on a sexual network (acts x dt compounding): the hazard per year must not depend on the step."""
+    for spelling in ('number', 'ss.beta'):
+        haz = {}
+        for dt in (1.0, 0.5, 0.25, 2.0):
+            B = 0.002 if spelling == 'number' else ss.beta(0.002)
+            sim = ss.Sim(n_agents=300, dt=dt, dur=4 * dt, verbose=0, diseases=ss.SIS(beta={'mf': [B, B]}), networks=ss.MFNet(acts=ss.constant(40))); sim.init()
+            net = sim.networks[0]
+            if len(net) == 0: sim.run_one_step()
+            if len(net) == 0: continue
+            p = np.asarray(net.net_beta(disease_beta=sim.diseases.sis.validate_beta()['mf'][0]), dtype=float)
+            haz[dt] = float(-np.log1p(-p[0]) / dt)
+            ctx.count(('sexual-beta', spelling, dt), nontrivial=True); ctx.dist('sexual network beta: ' + spelling)
+        want = 40 * -np.log1p(-0.002)
+        for dt, h in haz.items():
+            if abs(h - want) > 1e-9 * want:
+                w = dict(probe='sexual-network-beta', spelling=spelling, dt=dt, hazard=h, expected=want)
+                if spelling == 'ss.beta' and abs(h - dt * want) <= 1e-6 * want: w['finding_key'] = 'sexual-network-beta-double-dt'
+                ctx.violation(f'MFNet with 40 acts per year and a per-act transmission probability 0.002 given as {spelling}: with dt={dt} the hazard per year on an edge is {h:.6f}; acts x -ln(1-b) = {want:.6f}', w)
 
 
 def routine_delivery(ctx, ss):
